@@ -157,3 +157,67 @@ def replay_item(p):
               'file_bytes': len(data)}
     return {'reproduced': bad != '', 'ok': bad == '', 'detail': bad or 'decodes to what was assigned', 'sample': sample,
             'argmap': argmap}
+
+
+def replay_reassign(p):
+    """File level: value 1 assigned, file written, value 2 assigned, file written again - against a fresh file that
+    only ever had value 2: byte-identical."""
+    _quiet()
+    import vf.sites as sites
+    si, mult, mult2, x, s_, arm = p['args'][:6]
+    (ci, an) = sites.ACTIVE_SITES[si]
+    S = sites.ITEM_SETS[ci]
+    argmap = {'site': S.__name__ + '.' + an, 'mult': [mult, mult2], 'x': x, 's': s_, 'arm': arm}
+    kind = sites.kind_of(getattr(sites.make_item(S), an))
+
+    def build():
+        df, lf, it, a = build_file_with_item(S, an, None, False, False, False)
+
+        def target(attr, k=0):
+            oc = getattr(attr, '_object_class', None)
+            from dliswriter.logical_record.core.eflr import EFLRSet
+            from dliswriter.logical_record import eflr_types
+            set_cls = oc if (oc is not None and oc is not EFLRSet) else eflr_types.ZoneSet
+            par = df._eflr_sets.get_or_make_set(set_cls, set_name=None)
+            lf._eflr_sets.try_add_set(par)
+            for existing in par.get_all_eflr_items():
+                if existing.name == 'T' + str(k):
+                    return existing
+            return sites.make_item(set_cls, name='T' + str(k), parent=par, origin=lf.default_origin_reference)
+        return df, a, target
+
+    try:
+        df1, a1, t1 = build()
+        sites.ref_target = t1
+        pv1 = sites.py_values(a1, kind, mult, x, s_, arm)
+        pv2 = sites.py_values(a1, kind, mult2, x, s_, not arm)
+        if pv1 is None or pv2 is None:
+            return {'reproduced': False, 'ok': True, 'detail': 'combination outside the obligation', 'argmap': argmap}
+        a1.value = pv1[0]
+        write_and_read(df1)
+    except (ValueError, RuntimeError, TypeError) as e:
+        return {'reproduced': False, 'ok': True, 'detail': f'first value rejected: {type(e).__name__}: {e}', 'argmap': argmap}
+    try:
+        df2, a2, t2 = build()
+        sites.ref_target = t2
+        for k in range(3):
+            if kind in ('ref', 'refortext'):
+                t2(a2, k)                 # the same reference targets exist in both files
+        pv2b = sites.py_values(a2, kind, mult2, x, s_, not arm)
+        a2.value = pv2b[0]
+        fresh = write_and_read(df2)
+    except (ValueError, RuntimeError, TypeError) as e:
+        return {'reproduced': False, 'ok': True, 'detail': f'second value rejected on a fresh file: {type(e).__name__}: {e}',
+                'argmap': argmap}
+    try:
+        a1.value = pv2[0]
+        second = write_and_read(df1)
+    except (ValueError, RuntimeError, TypeError) as e:
+        return {'reproduced': True, 'ok': False, 'argmap': argmap,
+                'detail': f'{argmap["site"]}: {pv2[0]!r} is written by a fresh file but refused after a first write with {pv1[0]!r}: {type(e).__name__}: {e}'}
+    bad = ''
+    if second != fresh:
+        k = next((i for i in range(min(len(second), len(fresh))) if second[i] != fresh[i]), min(len(second), len(fresh)))
+        bad = (f'{argmap["site"]}: after a first write with {pv1[0]!r} the value {pv2[0]!r} is written differently from a fresh '
+               f'file ({len(second)} vs {len(fresh)} bytes, first difference at byte {k})')
+    return {'reproduced': bad != '', 'ok': bad == '', 'detail': bad or 'second write identical to a fresh file', 'argmap': argmap}
